@@ -1,6 +1,7 @@
 import Driver.ProgJson
 import Heph.Model.Check
 import Heph.Model.CondType
+import Heph.Model.GenVar
 /-! ops of the C01 family.
   `check.wt` {program export + "bt": {"any","void","boolean","char","string","integer": index into tt,
   "builtins": [indices]}} → {"r": "ok" | {"path": [...], "reason": tag, "detail": text},
@@ -43,14 +44,46 @@ def handle : Handler := fun op j =>
       let lt ← parseLangTypes tbl j
       pure (res (Json.bool (asgB lt (← tyAt tbl j "s") (← tyAt tbl j "t")))))
   | "check.condtype" => some (do
-      -- {tt, "tmp", "t", "f", "expect"} → {"same": model fold == recorded result, "upper": the result bounds both branches}
+      -- {tt, "tmp", "t", "f", "expect" [, "etype", "final"]} → {"same": model fold == recorded fold result,
+      --  "upper": the fold result bounds both branch types (code's is_subtype),
+      --  "final_is": which model the type recorded in the Conditional follows: "fold" (tree as is),
+      --  "fixed" (repaired fold: expected type when the fold result is no upper bound), "both", "neither",
+      --  "final_upper": the recorded type bounds both branch types}
       let tbl ← parseTable j
       let tmp ← tyAt tbl j "tmp"
       let t ← tyAt tbl j "t"
       let f ← tyAt tbl j "f"
+      let sub := fun (x acc : Ty) => Ty.isSubtype x acc == .yes
       let out := condTypeTy tmp t f
-      let up := Ty.isSubtype t out == .yes && Ty.isSubtype f out == .yes
-      pure (res (Json.mkObj [("same", answerTy tbl j out), ("upper", Json.bool up)])))
+      let up := sub t out && sub f out
+      let base := [("same", answerTy tbl j out), ("upper", Json.bool up)]
+      match j.getObjVal? "final" with
+      | .ok _ =>
+          let fin ← tyAt tbl j "final"
+          let et ← tyAt tbl j "etype"
+          let fixed := if up then out else et
+          let isFold := Ty.beq fin out
+          let isFixed := Ty.beq fin fixed
+          let which := if isFold && isFixed then "both" else if isFold then "fold" else if isFixed then "fixed" else "neither"
+          pure (res (Json.mkObj (base ++ [("final_is", Json.str which),
+            ("final_upper", Json.bool (sub t fin && sub f fin))])))
+      | .error _ => pure (res (Json.mkObj base)))
+  | "check.genvar" => some (do
+      -- {tt, "extra", "vars": [{"name","t","final","outer"}], "etype", "sub", "jl", "out": name | null}
+      --  → {"ok": the recorded outcome refines the model, "cands": names of the model's candidates}
+      let tbl ← parseTable j
+      let extra ← parsePairs j "extra"
+      let vs ← (← getArr j "vars").toList.mapM fun v => do
+        pure ({ name := ← getStr v "name", ty := ← tyAt tbl v "t", final := ← getBool v "final",
+                outer := ← getBool v "outer" } : VarInfo)
+      let et ← tyAt tbl j "etype"
+      let sub ← getBool j "sub"
+      let jl ← getBool j "jl"
+      let out : GenVarOut := match (j.getObjValD "out").getStr? with
+        | .ok n => .variable n
+        | .error _ => .fallback
+      pure (res (Json.mkObj [("ok", Json.bool (genVariableRefines extra vs et sub jl out)),
+        ("cands", ofStrList ((genVariableCandidates extra vs et sub jl).map (·.name)))])))
   | _ => none
 
 end Driver.Check
